@@ -2,6 +2,7 @@
     Statements only; proofs are in Canon.v / Inv.v / Hist.v. *)
 From Coq Require Import List NArith ZArith Bool.
 From Mast Require Import Prim Key Tree KeyOrder Codec Store Diff World Erase Build Spec Canon Level Inv Hist Reload WorldInv.
+From Mast Require Import ReloadB.
 Import ListNotations.
 
 (** For EVERY key type with a strict total order, every value type with decidable equality, every
@@ -94,7 +95,7 @@ Example C01_example :
 Proof. vm_compute. repeat split; reflexivity. Qed.
 
 
-(** FULL history theorem, with persist AND reload, many trees, many stores (binary node format):
+(** FULL history theorem, with persist AND reload, many trees, many stores (each tree of either node format):
     every finite history of new / insert / update / delete / lookup / size / iterate / seek (also
     stopped early) / clone / persist / LoadMast of any captured root / entry diff (all four
     interfaces) observes exactly what the abstract world of sorted association lists observes, and
